@@ -64,7 +64,7 @@ def predicted_names(cases: list[dict]) -> dict:
     reqs, keys = [], []
     for c in cases:
         for s in c.get("strategies") or [c["strategy"]]:
-            reqs.append({"f": "clients", "a": [s, True, doc_to_mpaths(c["doc"])]})
+            reqs.append({"f": "clients", "a": [s, False, doc_to_mpaths(c["doc"])]})   # one emit pass (F19 repaired)
             keys.append((c["id"], s))
     res = cc._driver_batch(str(DRIVER_BIN), reqs)
     out = {}
